@@ -133,18 +133,19 @@ template <class Out> static inline void scramble(Out& out, uint64_t k, pt::pixva
     pt::set_pix(out, pt::norm_pix<Out>(v));
 }
 
+// every functor carries run-time member state (salt) that its results depend on
 template <class Out, bool Compat, bool HasId> struct xf1 {
-    recorder* rec;
+    recorder* rec; uint64_t salt;
     typedef Out result_type;
     template <class R> Out operator()(R const& r) const {
         record(rec, r, std::integral_constant<bool, HasId>());
         Out out = Out(); to_out(r, out, std::integral_constant<bool, Compat>());
-        scramble(out, rec->calls++);
+        scramble(out, salt + rec->calls++);
         return out;
     }
 };
 template <class Out, bool Compat, bool HasId> struct xf2 {
-    recorder* rec; recorder* rec2;
+    recorder* rec; recorder* rec2; uint64_t salt;
     typedef Out result_type;
     template <class R1, class R2> Out operator()(R1 const& r1, R2 const& r2) const {
         record(rec, r1, std::integral_constant<bool, HasId>());
@@ -152,7 +153,7 @@ template <class Out, bool Compat, bool HasId> struct xf2 {
         Out out = Out(); to_out(r1, out, std::integral_constant<bool, Compat>());
         Out o2 = Out(); o2 = r2;
         pt::pixval v2 = pt::get_pix(o2);
-        scramble(out, rec->calls++, &v2);
+        scramble(out, salt + rec->calls++, &v2);
         return out;
     }
 };
@@ -167,11 +168,11 @@ template <class Out, bool Compat, bool HasId> struct xfpos2 {
     template <class L1, class L2> Out operator()(L1 const& l1, L2 const& l2) const { return f(*l1, *l2); }
 };
 template <bool HasId, bool Write> struct fe_fn {
-    recorder* rec;
+    recorder* rec; uint64_t salt;
     template <class R> void operator()(R&& r) const {
         typedef typename std::remove_cv<typename std::remove_reference<R>::type>::type P;
         record(rec, r, std::integral_constant<bool, HasId>());
-        uint64_t k = rec->calls++;
+        uint64_t k = salt + rec->calls++;
         write(r, k, std::integral_constant<bool, Write>());
     }
     template <class R> void write(R&& r, uint64_t k, std::true_type) const {
@@ -216,6 +217,12 @@ template <bool HasId> static void check_values(std::string const& key, std::vect
     for (size_t i = 0; i < expect.size(); ++i)
         if (rec.vals[i] != expect[i]) { vh::viol(key + ".call-value", vh::cat(ctx, ": call #", i, " received ", rec.vals[i].str(), ", row-major order expects ", expect[i].str())); return; }
 }
+template <class TK> struct inst;
+template <class TK> static std::vector<pt::pixval> values_read(inst<TK> const& s) {
+    std::vector<pt::pixval> o;
+    for (long y = 0; y < s.h; ++y) for (long x = 0; x < s.w; ++x) o.push_back(pt::get_pix(reader<TK>::at(s, x, y)));
+    return o;
+}
 template <class V> static std::vector<pt::pixval> values_of(V const& v) {
     std::vector<pt::pixval> o;
     for (long y = 0; y < v.height(); ++y) for (long x = 0; x < v.width(); ++x) o.push_back(pt::get_pix(v(x, y)));
@@ -251,11 +258,16 @@ template <class S, class D, bool Compat> struct pair_check {
     static std::string path(const char* algo, inst<S> const& s, twin<D> const& d) {
         return vh::cat(algo, ".", S::name(), ">", D::name(), ".s", t1d(s.v), "d", t1d(d.a));
     }
-    static void model_assign(SV const& s, DV const& b, std::true_type) {
-        for (long y = 0; y < b.height(); ++y) for (long x = 0; x < b.width(); ++x) b(x, y) = s(x, y);
+    static void model_assign(inst<S> const& s, DV const& b, std::true_type) {
+        for (long y = 0; y < b.height(); ++y) for (long x = 0; x < b.width(); ++x) b(x, y) = reader<S>::at(s, x, y);
     }
-    static void model_assign(SV const& s, DV const& b, std::false_type) {
-        for (long y = 0; y < b.height(); ++y) for (long x = 0; x < b.width(); ++x) { Out t = Out(); gil::color_convert(s(x, y), t); b(x, y) = t; }
+    static void model_assign(inst<S> const& s, DV const& b, std::false_type) {
+        for (long y = 0; y < b.height(); ++y) for (long x = 0; x < b.width(); ++x) { Out t = Out(); gil::color_convert(reader<S>::at(s, x, y), t); b(x, y) = t; }
+    }
+    // caller-supplied converter: applied on really converting pairs only (compatible pairs are documented to be a plain copy)
+    static void model_assign_cc(inst<S> const& s, DV const& b, stateful_cc const& cc, std::true_type) { model_assign(s, b, std::true_type()); }
+    static void model_assign_cc(inst<S> const& s, DV const& b, stateful_cc const& cc, std::false_type) {
+        for (long y = 0; y < b.height(); ++y) for (long x = 0; x < b.width(); ++x) { Out t = Out(); cc(reader<S>::at(s, x, y), t); b(x, y) = t; }
     }
     static void side_effects(std::string const& key, inst<S>& s, inst<D>* c, std::string const& ctx) {
         if (!s.unchanged()) { vh::viol(key + ".source-modified", ctx); s.a.copy_from(s.orig); }
@@ -265,7 +277,7 @@ template <class S, class D, bool Compat> struct pair_check {
     static void copy(inst<S>& s, twin<D>& d, std::string const& ctx, std::true_type) {
         std::string k = path("copy", s, d);
         gil::copy_pixels(s.v, d.a);
-        model_assign(s.v, d.b, std::true_type());
+        model_assign(s, d.b, std::true_type());
         check_dst(k, d, ctx); side_effects(k, s, nullptr, ctx);
         if (d.w && d.h) vh::obs(k);
         equal(s, d, ctx);
@@ -325,48 +337,55 @@ template <class S, class D, bool Compat> struct pair_check {
         twin<D> d(dv, w, h, r);
         inst<D> c(dv, w, h, r, 2);          // second source, of the destination's kind
         std::string ctx = vh::cat(S::name(), "/", S::var(sv), " -> ", D::name(), "/", D::var(dv), " ", w, "x", h);
-        const std::vector<pt::pixval> svals = values_of(s.v), cvals = values_of(c.v);
+        const std::vector<pt::pixval> svals = values_read(s), cvals = values_of(c.v);
+        const uint64_t salt = r.next();
         recorder rec, rec2;
 
         copy(s, d, ctx, std::integral_constant<bool, Compat>());
 
         {   std::string k = path("copy_and_convert", s, d);
             gil::copy_and_convert_pixels(s.v, d.a);
-            model_assign(s.v, d.b, std::integral_constant<bool, Compat>());
+            model_assign(s, d.b, std::integral_constant<bool, Compat>());
+            check_dst(k, d, ctx); side_effects(k, s, nullptr, ctx); if (w && h) vh::obs(k); d.reset(); }
+
+        {   std::string k = path("copy_and_convert_cc", s, d);
+            stateful_cc cc(1 + r.below(1000000));
+            gil::copy_and_convert_pixels(s.v, d.a, cc);
+            model_assign_cc(s, d.b, stateful_cc(cc.off), std::integral_constant<bool, Compat>());
             check_dst(k, d, ctx); side_effects(k, s, nullptr, ctx); if (w && h) vh::obs(k); d.reset(); }
 
         {   std::string k = path("transform1", s, d);
-            xf1<Out, Compat, HasId> f = {&rec}; rec.clear();
+            xf1<Out, Compat, HasId> f = {&rec, salt}; rec.clear();
             gil::transform_pixels(s.v, d.a, f);
             check_order<typename S::mut_t::view_t, HasId>(k, s.mv, rec, ctx); check_values<HasId>(k, svals, rec, ctx);
-            rec.clear(); xf1<Out, Compat, HasId> g = {&rec};
-            for (long y = 0; y < h; ++y) for (long x = 0; x < w; ++x) d.b(x, y) = g(s.v(x, y));
+            rec.clear(); xf1<Out, Compat, HasId> g = {&rec, salt};
+            for (long y = 0; y < h; ++y) for (long x = 0; x < w; ++x) d.b(x, y) = g(reader<S>::at(s, x, y));
             check_dst(k, d, ctx); side_effects(k, s, nullptr, ctx); if (w && h) vh::obs(k); d.reset(); }
 
         {   std::string k = path("transform2", s, d);
-            xf2<Out, Compat, HasId> f = {&rec, &rec2}; rec.clear(); rec2.clear();
+            xf2<Out, Compat, HasId> f = {&rec, &rec2, salt}; rec.clear(); rec2.clear();
             gil::transform_pixels(s.v, c.v, d.a, f);
             check_order<typename S::mut_t::view_t, HasId>(k, s.mv, rec, ctx); check_values<HasId>(k, svals, rec, ctx);
             check_order<DV, true>(k + ".src2", c.v, rec2, ctx); check_values<true>(k + ".src2", cvals, rec2, ctx);
-            rec.clear(); rec2.clear(); xf2<Out, Compat, HasId> g = {&rec, &rec2};
-            for (long y = 0; y < h; ++y) for (long x = 0; x < w; ++x) d.b(x, y) = g(s.v(x, y), c.v(x, y));
+            rec.clear(); rec2.clear(); xf2<Out, Compat, HasId> g = {&rec, &rec2, salt};
+            for (long y = 0; y < h; ++y) for (long x = 0; x < w; ++x) d.b(x, y) = g(reader<S>::at(s, x, y), c.v(x, y));
             check_dst(k, d, ctx); side_effects(k, s, &c, ctx); if (w && h) vh::obs(k); d.reset(); }
 
         {   std::string k = path("transform_pos1", s, d);
-            xfpos1<Out, Compat, HasId> f = {{&rec}}; rec.clear();
+            xfpos1<Out, Compat, HasId> f = {{&rec, salt}}; rec.clear();
             gil::transform_pixel_positions(s.v, d.a, f);
             check_order<typename S::mut_t::view_t, HasId>(k, s.mv, rec, ctx); check_values<HasId>(k, svals, rec, ctx);
-            rec.clear(); xf1<Out, Compat, HasId> g = {&rec};
-            for (long y = 0; y < h; ++y) for (long x = 0; x < w; ++x) d.b(x, y) = g(s.v(x, y));
+            rec.clear(); xf1<Out, Compat, HasId> g = {&rec, salt};
+            for (long y = 0; y < h; ++y) for (long x = 0; x < w; ++x) d.b(x, y) = g(reader<S>::at(s, x, y));
             check_dst(k, d, ctx); side_effects(k, s, nullptr, ctx); if (w && h) vh::obs(k); d.reset(); }
 
         {   std::string k = path("transform_pos2", s, d);
-            xfpos2<Out, Compat, HasId> f = {{&rec, &rec2}}; rec.clear(); rec2.clear();
+            xfpos2<Out, Compat, HasId> f = {{&rec, &rec2, salt}}; rec.clear(); rec2.clear();
             gil::transform_pixel_positions(s.v, c.v, d.a, f);
             check_order<typename S::mut_t::view_t, HasId>(k, s.mv, rec, ctx); check_values<HasId>(k, svals, rec, ctx);
             check_order<DV, true>(k + ".src2", c.v, rec2, ctx);
-            rec.clear(); rec2.clear(); xf2<Out, Compat, HasId> g = {&rec, &rec2};
-            for (long y = 0; y < h; ++y) for (long x = 0; x < w; ++x) d.b(x, y) = g(s.v(x, y), c.v(x, y));
+            rec.clear(); rec2.clear(); xf2<Out, Compat, HasId> g = {&rec, &rec2, salt};
+            for (long y = 0; y < h; ++y) for (long x = 0; x < w; ++x) d.b(x, y) = g(reader<S>::at(s, x, y), c.v(x, y));
             check_dst(k, d, ctx); side_effects(k, s, &c, ctx); if (w && h) vh::obs(k); d.reset(); }
         if (g_round == 0) vh::distinct(Compat ? 7 : 5);
     }
@@ -376,6 +395,7 @@ template <class S, class D, bool Compat> struct pair_check {
             for (int dv = 0; dv < D::NVAR; ++dv) {
                 if (!vh::begin_case(vh::cat(S::name(), ">", D::name()), vh::cat(S::var(sv), ">", D::var(dv)))) continue;
                 vh::rng r = vh::case_rng();
+                k4::cc_state() = 1 + r.below(1000000);
                 vh::sample(vh::cat(S::name(), "/", S::var(sv), " -> ", D::name(), "/", D::var(dv), ": copy, copy_and_convert, equal (every single-pixel difference, padding-only difference), transform 1/2 sources, transform positions 1/2 sources; ", g_shapes.size(), " shapes; whole twin-arena comparison"));
                 for (g_round = 0; g_round < g_rounds; ++g_round) for (auto& sh : g_shapes) run_shape(sv, dv, sh.first, sh.second, r);
             }
@@ -388,6 +408,8 @@ template <> struct twin_value<gil::rgb8_pixel_t> { typedef gil::bgr8_pixel_t typ
 template <> struct twin_value<gil::bgr8_pixel_t> { typedef gil::rgb8_pixel_t type; };
 template <> struct twin_value<gil::rgb16_pixel_t> { typedef gil::bgr16_pixel_t type; };
 template <> struct twin_value<gil::rgb32f_pixel_t> { typedef gil::bgr32f_pixel_t type; };
+template <> struct twin_value<gil::rgba8_pixel_t> { typedef gil::bgra8_pixel_t type; };
+template <> struct twin_value<gil::bgra8_pixel_t> { typedef gil::rgba8_pixel_t type; };
 
 // ---- single-view algorithms --------------------------------------------------------------------------
 template <class D, bool Writable> struct single_check;
@@ -398,6 +420,7 @@ template <class D> struct single_check<D, true> {
         twin<D> d(dv, w, h, r);
         std::string ctx = vh::cat(D::name(), "/", D::var(dv), " ", w, "x", h);
         recorder rec;
+        const uint64_t salt = r.next();
         const std::vector<pt::pixval> dvals = values_of(d.a);
         {   std::string k = path("fill", d);
             Out px = Out(); pt::set_pix(px, pt::norm_pix<Out>(pt::rand_pix(r, pt::nch<Out>::value)));
@@ -418,17 +441,17 @@ template <class D> struct single_check<D, true> {
             for (long y = 0; y < h; ++y) for (long x = 0; x < w; ++x) d.b(x, y) = gen_fn<Out>::value(seed, (uint64_t)(y * w + x));
             check_dst(k, d, ctx); if (w && h) vh::obs(k); d.reset(); }
         {   std::string k = path("for_each", d);
-            fe_fn<true, true> f = {&rec}; rec.clear();
+            fe_fn<true, true> f = {&rec, salt}; rec.clear();
             gil::for_each_pixel(d.a, f);
             check_order<DV, true>(k, d.a, rec, ctx); check_values<true>(k, dvals, rec, ctx);
-            rec.clear(); fe_fn<true, true> g = {&rec};
+            rec.clear(); fe_fn<true, true> g = {&rec, salt};
             for (long y = 0; y < h; ++y) for (long x = 0; x < w; ++x) g(d.b(x, y));
             check_dst(k, d, ctx); if (w && h) vh::obs(k); d.reset(); }
         {   std::string k = path("for_each_pos", d);
-            fepos_fn<true, true> f = {{&rec}}; rec.clear();
+            fepos_fn<true, true> f = {{&rec, salt}}; rec.clear();
             gil::for_each_pixel_position(d.a, f);
             check_order<DV, true>(k, d.a, rec, ctx); check_values<true>(k, dvals, rec, ctx);
-            rec.clear(); fe_fn<true, true> g = {&rec};
+            rec.clear(); fe_fn<true, true> g = {&rec, salt};
             for (long y = 0; y < h; ++y) for (long x = 0; x < w; ++x) g(d.b(x, y));
             check_dst(k, d, ctx); if (w && h) vh::obs(k); d.reset(); }
         if (g_round == 0) vh::distinct(4);
@@ -448,16 +471,17 @@ template <class S> struct single_check<S, false> {
     static void run_shape(int sv, long w, long h, vh::rng& r) {
         inst<S> s(sv, w, h, r, 3);
         std::string ctx = vh::cat(S::name(), "/", S::var(sv), " ", w, "x", h);
-        const std::vector<pt::pixval> svals = values_of(s.v);
+        const std::vector<pt::pixval> svals = values_read(s);
+        const uint64_t salt = r.next();
         recorder rec;
         {   std::string k = vh::cat("for_each.", S::name(), ".d", t1d(s.v));
-            fe_fn<HasId, false> f = {&rec};
+            fe_fn<HasId, false> f = {&rec, salt};
             gil::for_each_pixel(s.v, f);
             check_order<typename S::mut_t::view_t, HasId>(k, s.mv, rec, ctx); check_values<HasId>(k, svals, rec, ctx);
             if (!s.unchanged()) vh::viol(k + ".source-modified", ctx);
             if (w && h) vh::obs(k); }
         {   std::string k = vh::cat("for_each_pos.", S::name(), ".d", t1d(s.v));
-            fepos_fn<HasId, false> f = {{&rec}}; rec.clear();
+            fepos_fn<HasId, false> f = {{&rec, salt}}; rec.clear();
             gil::for_each_pixel_position(s.v, f);
             check_order<typename S::mut_t::view_t, HasId>(k, s.mv, rec, ctx); check_values<HasId>(k, svals, rec, ctx);
             if (!s.unchanged()) vh::viol(k + ".source-modified", ctx);
@@ -468,6 +492,7 @@ template <class S> struct single_check<S, false> {
         for (int sv = 0; sv < S::NVAR; ++sv) {
             if (!vh::begin_case(vh::cat("single.", S::name()), S::var(sv))) continue;
             vh::rng r = vh::case_rng();
+            k4::cc_state() = 1 + r.below(1000000);
             for (g_round = 0; g_round < g_rounds; ++g_round) for (auto& sh : g_shapes) run_shape(sv, sh.first, sh.second, r);
         }
     }
@@ -478,7 +503,8 @@ template <int I> struct TK;
 #define DEF_TK(I, DST, ...) template <> struct TK<I> { typedef __VA_ARGS__ type; static const bool dst = DST; };
 
 K4_TAG(t_rgb8, "rgb8"); K4_TAG(t_bgr8, "bgr8"); K4_TAG(t_rgb16, "rgb16"); K4_TAG(t_rgb32f, "rgb32f"); K4_TAG(t_gray8, "gray8"); K4_TAG(t_gray16, "gray16");
-K4_TAG(t_cc_gray16, "cc-rgb8(gray16-ptr)"); K4_TAG(t_cc_rgb16pl, "cc-rgb8(rgb16-planar)");
+K4_TAG(t_cc_gray16, "cc-rgb8(gray16-ptr)"); K4_TAG(t_ccs_rgb16pl, "ccs-rgb8(rgb16-planar)"); K4_TAG(t_ccs_gray8, "ccs-rgb16(gray8-ptr)");
+K4_TAG(t_dev2, "dev2x8"); K4_TAG(t_dev5, "dev5x8"); K4_TAG(t_rgba8, "rgba8"); K4_TAG(t_bgra8, "bgra8");
 K4_TAG(t_p565, "packed565"); K4_TAG(t_ba565, "ba-rgb565"); K4_TAG(t_babgr565, "ba-bgr565");
 K4_TAG(t_bag1, "ba-gray1"); K4_TAG(t_pg1, "packed-gray1");
 K4_TAG(t_ba123, "ba-rgb123"); K4_TAG(t_babgr321, "ba-bgr321"); K4_TAG(t_p123, "packed-rgb123");
@@ -487,6 +513,15 @@ typedef ptr_tk<gil::rgb8_pixel_t, t_rgb8> rgb8_ptr;
 typedef planar_tk<gil::rgb8_pixel_t, t_rgb8> rgb8_pl;
 typedef ptr_tk<gil::bgr8_pixel_t, t_bgr8> bgr8_ptr;
 typedef ptr_tk<gil::rgb16_pixel_t, t_rgb16> rgb16_ptr;
+typedef gil::pixel<uint8_t, gil::devicen_layout_t<2>> dev2_pixel_t;
+typedef gil::pixel<uint8_t, gil::devicen_layout_t<5>> dev5_pixel_t;
+typedef ptr_tk<dev2_pixel_t, t_dev2> dev2_ptr;
+typedef planar_tk<dev2_pixel_t, t_dev2> dev2_pl;
+typedef ptr_tk<dev5_pixel_t, t_dev5> dev5_ptr;
+typedef planar_tk<dev5_pixel_t, t_dev5> dev5_pl;
+typedef ptr_tk<gil::rgba8_pixel_t, t_rgba8> rgba8_ptr;
+typedef planar_tk<gil::rgba8_pixel_t, t_rgba8> rgba8_pl;
+typedef ptr_tk<gil::bgra8_pixel_t, t_bgra8> bgra8_ptr;
 typedef planar_tk<gil::rgb16_pixel_t, t_rgb16> rgb16_pl;
 typedef ptr_tk<gil::rgb32f_pixel_t, t_rgb32f> rgb32f_ptr;
 typedef planar_tk<gil::rgb32f_pixel_t, t_rgb32f> rgb32f_pl;
@@ -515,7 +550,7 @@ DEF_TK(7, false, const_tk<rgb8_ptr>)
 DEF_TK(8, false, const_tk<rgb8_pl>)
 DEF_TK(9, false, step_tk<bgr8_ptr>)
 DEF_TK(10, false, cc_tk<gray16_ptr, gil::rgb8_pixel_t, t_cc_gray16>)
-DEF_TK(11, false, cc_tk<rgb16_pl, gil::rgb8_pixel_t, t_cc_rgb16pl>)
+DEF_TK(11, false, cc_tk<rgb16_pl, gil::rgb8_pixel_t, t_ccs_rgb16pl, true>)     // color_converted_view(src, stateful converter)
 static const int NTK = 12;
 #elif FAM == 1      // 16-bit rgb: per-plane memcmp/memmove with sizeof(channel) > 1
 static const char* FAMILY = "rgb16";
@@ -554,6 +589,31 @@ DEF_TK(2, true, babgr321)
 DEF_TK(3, true, p123_ptr)
 DEF_TK(4, false, transp_tk<ba123>)
 DEF_TK(5, false, const_tk<ba123>)
+static const int NTK = 6;
+#elif FAM == 7      // 2 channels (devicen<2>): the 2-element colour base behind the planar iterator
+static const char* FAMILY = "dev2";
+DEF_TK(0, true, dev2_ptr)
+DEF_TK(1, true, dev2_pl)
+DEF_TK(2, true, step_tk<dev2_pl>)
+DEF_TK(3, false, const_tk<dev2_pl>)
+static const int NTK = 4;
+#elif FAM == 8      // 4 channels: rgba planar / interleaved / bgra twin
+static const char* FAMILY = "rgba8";
+DEF_TK(0, true, rgba8_ptr)
+DEF_TK(1, true, rgba8_pl)
+DEF_TK(2, true, step_tk<rgba8_pl>)
+DEF_TK(3, true, bgra8_ptr)
+DEF_TK(4, false, const_tk<rgba8_pl>)
+DEF_TK(5, false, transp_tk<rgba8_pl>)
+static const int NTK = 6;
+#elif FAM == 9      // 5 channels (devicen<5>): the 5-element colour base
+static const char* FAMILY = "dev5";
+DEF_TK(0, true, dev5_ptr)
+DEF_TK(1, true, dev5_pl)
+DEF_TK(2, true, step_tk<dev5_pl>)
+DEF_TK(3, true, transp_tk<dev5_pl>)
+DEF_TK(4, false, const_tk<dev5_pl>)
+DEF_TK(5, false, step_tk<dev5_ptr>)
 static const int NTK = 6;
 #elif FAM == 6      // converting copy_and_convert_pixels / transform between incompatible kinds (sources: PART 0..4)
 static const char* FAMILY = "convert";
@@ -702,7 +762,18 @@ int main(int argc, char** argv) {
     typedef gil::bit_aligned_image3_type<5, 6, 5, gil::rgb_layout_t, alloc_t>::type ba565_i;
     typedef gil::bit_aligned_image1_type<1, gil::gray_layout_t, alloc_t>::type bag1_i;
     typedef gil::bit_aligned_image3_type<1, 2, 3, gil::rgb_layout_t, alloc_t>::type ba123_i;
-#if PART == 0
+#if PART == 2
+    typedef gil::image<dev5_pixel_t, true, alloc_t> dev5_p;
+    typedef gil::image<dev5_pixel_t, false, alloc_t> dev5_i;
+    typedef gil::image<dev2_pixel_t, true, alloc_t> dev2_p;
+    typedef gil::image<gil::rgba8_pixel_t, true, alloc_t> rgba8_p;
+    typedef gil::image<gil::bgra8_pixel_t, false, alloc_t> bgra8_i;
+    image_eq<dev5_p, dev5_p>::run("dev5x8-planar", "dev5x8-planar");
+    image_eq<dev5_p, dev5_i>::run("dev5x8-planar", "dev5x8");
+    image_eq<rgba8_p, rgba8_p>::run("rgba8-planar", "rgba8-planar");
+    image_eq<bgra8_i, rgba8_p>::run("bgra8", "rgba8-planar");
+    image_eq<dev2_p, dev2_p>::run("dev2x8-planar", "dev2x8-planar");
+#elif PART == 0
     image_eq<rgb8_i, rgb8_i>::run("rgb8", "rgb8");
     image_eq<rgb8_i, rgb8_p>::run("rgb8", "rgb8-planar");
     image_eq<rgb8_p, rgb8_p>::run("rgb8-planar", "rgb8-planar");
